@@ -27,6 +27,7 @@ import (
 type urlDecl struct {
 	scheme, host, hostname, path, rawquery, fragment *Term
 	hostLit, portPart                                *Term // host == hostLit ++ portPart when known (declared URLs)
+	port                                             *Term // Port() when declared directly (DeclareURL)
 	synth                                            bool  // produced by (*URL).String() of a structured URL (scheme already lower-case)
 }
 
@@ -67,6 +68,22 @@ func (m *Machine) declareURL(raw *Term, d *urlDecl) {
 	}
 	m.urls[raw.String()] = d
 	m.hostnameOf(d.host, d.hostname)
+	if d.port != nil {
+		m.ghost["url:port:"+d.host.String()] = []value{d.port}
+	} else if d.portPart != nil {
+		// portPart is "" or ":" digits*: Port() is what follows the colon
+		pp := d.portPart
+		port := mkIte(mkEq(pp, mkStr("")), mkStr(""), mkSubstr(pp, mkInt(1), mkSub(mkLen(pp), mkInt(1))))
+		m.ghost["url:port:"+d.host.String()] = []value{port}
+	}
+}
+
+// portOf looks up the Port() of a structured Host term.
+func (m *Machine) portOf(host *Term) *Term {
+	if v := m.ghost["url:port:"+host.String()]; len(v) == 1 {
+		return v[0].(*Term)
+	}
+	return nil
 }
 
 // hostnameOf records/looks up the Hostname() of a structured Host term.
@@ -98,7 +115,7 @@ func init() {
 		if !(port.IsConst() && port.S == "") {
 			host = mkConcat(hostname, mkStr(":"), port)
 		}
-		m.declareURL(strArg(a[0]), &urlDecl{scheme: strArg(a[1]), host: host, hostname: stripBrackets(hostname), path: strArg(a[4]), rawquery: strArg(a[5]), fragment: strArg(a[6])})
+		m.declareURL(strArg(a[0]), &urlDecl{scheme: strArg(a[1]), host: host, hostname: stripBrackets(hostname), port: port, path: strArg(a[4]), rawquery: strArg(a[5]), fragment: strArg(a[6])})
 		m.note("structured URLs: the parse of a string built from declared delimiter-free components is its components (checked against net/url on every native replay)")
 		return nil
 	}
